@@ -8,7 +8,7 @@
    * BuyDirect, per filled order: the only third party touched is the seller of that order, who loses exactly the bought quantity of ESCROWED credits (never more than the order's
      quantity) and receives exactly the payment in the market's denom; only the buyer's coins decrease, by fee + payment (C03_buy_one_order with C07_* for the amounts);
    * begin-block: moves expired orders' escrow back to the seller's tradable balance and nothing else (C03_begin_block).
-   A single unified statement over all messages is not given; BuyDirect with several orders is the composition of the per-order statement (buy_one_inv exposes each fill_order call). *)
+   UNIFIED STATEMENT (Ledger/InvAllOwn2.v): C03_every_message / C03_every_delivered_message hold for EVERY message of every family, successful or failed, and every account other than the signer: (i) its tradable credits never decrease, (ii) its escrowed credits decrease only when the message is another account's BuyDirect, (iii) and then by exactly the quantity by which its OWN open sell orders shrank (open_units = the sum Inv_escrow equates with the escrow; C03_buy_direct_orders_shrink: a BuyDirect never creates, re-assigns or enlarges an order), (iv)+(v) its coins (basket tokens are coins) never decrease, the only account whose coins can decrease without its signature being the fee pool under GovSendFromFeePool signed by the governance authority.  C03_history: over any stretch of history in which the account signs nothing.  The per-family theorems that follow give the exact amounts. *)
 From stdpp Require Import gmap.
 From RecordUpdate Require Import RecordSet.
 From Coq Require Import ZArith NArith List Bool Strings.Byte.
@@ -17,9 +17,110 @@ Require Import Regen.Ledger.Types Regen.Ledger.Msgs Regen.Ledger.Orm Regen.Ledge
 Require Import Regen.Ledger.Amount Regen.Ledger.MapSum Regen.Ledger.Inv.
 Require Import Regen.Ledger.InvAdmin Regen.Ledger.InvBase Regen.Ledger.InvBasket Regen.Ledger.InvBridge Regen.Ledger.InvOwn.
 Require Import Regen.Ledger.InvMarketLib Regen.Ledger.InvMarketOrders Regen.Ledger.InvMarketFill Regen.Ledger.InvMarket.
-Require Import Regen.Ledger.InvAllLib Regen.Ledger.InvAllOwn.
+Require Import Regen.Ledger.InvAllLib Regen.Ledger.InvAllRun Regen.Ledger.InvAllOwn Regen.Ledger.InvAllOwn2.
 Import ListNotations RecordSetNotations.
 Local Open Scope Z_scope.
+
+(* the unified statement: any message of any family, any account other than its signer *)
+Theorem C03_every_message : forall e s m s' r evs,
+  Inv_run s -> validate_basic m = true -> handle e s m = LOk (s', r, evs) ->
+  forall a, a <> signer m ->
+    (* (i) tradable credits never decrease *)
+    (forall k, U (bl_tradable (get_balance s a k)) <= U (bl_tradable (get_balance s' a k))) /\
+    (* (ii) only a BuyDirect (signed by the buyer, who is not a) lowers the escrow *)
+    (forall k, U (bl_escrowed (get_balance s' a k)) < U (bl_escrowed (get_balance s a k)) ->
+               exists buyer orders, m = MBuyDirect buyer orders) /\
+    (* (iii) and then by exactly the quantity by which a's own open sell orders for the batch shrank *)
+    (forall k, U (bl_escrowed (get_balance s a k)) - U (bl_escrowed (get_balance s' a k)) =
+               open_units s a k - open_units s' a k) /\
+    (* (iv) coins (basket tokens included) never decrease, the fee pool excepted *)
+    (forall d, a <> addr_feepool -> bank_bal s a d <= bank_bal s' a d) /\
+    (* (v) the exception: the fee pool, by a GovSendFromFeePool of the authority *)
+    (forall d, bank_bal s' a d < bank_bal s a d ->
+               a = addr_feepool /\ exists authority recipient coins,
+                 m = MGovSendFromFeePool authority recipient coins /\ authority = e_authority e).
+Proof. exact ownership_all_messages. Qed.
+Print Assumptions C03_every_message.
+
+(* through the transaction rule (failed and invalid messages included: they change nothing) *)
+Theorem C03_every_delivered_message : forall e s m,
+  Inv_run s -> forall a, a <> signer m ->
+    let s' := (deliver e s m).1 in
+    (forall k, U (bl_tradable (get_balance s a k)) <= U (bl_tradable (get_balance s' a k))) /\
+    (forall k, U (bl_escrowed (get_balance s' a k)) < U (bl_escrowed (get_balance s a k)) ->
+               exists buyer orders, m = MBuyDirect buyer orders) /\
+    (forall k, U (bl_escrowed (get_balance s a k)) - U (bl_escrowed (get_balance s' a k)) =
+               open_units s a k - open_units s' a k) /\
+    (forall d, a <> addr_feepool -> bank_bal s a d <= bank_bal s' a d) /\
+    (forall d, bank_bal s' a d < bank_bal s a d ->
+               a = addr_feepool /\ exists authority recipient coins,
+                 m = MGovSendFromFeePool authority recipient coins /\ authority = e_authority e).
+Proof. exact ownership_deliver. Qed.
+Print Assumptions C03_every_delivered_message.
+
+(* orders_shrink: every order left after a BuyDirect existed before with the same seller and batch and at least the same quantity *)
+Theorem C03_buy_direct_orders_shrink : forall e s buyer orders s' r evs,
+  Inv_run s -> handle e s (MBuyDirect buyer orders) = LOk (s', r, evs) -> orders_shrink s s'.
+Proof. exact buy_direct_orders_shrink. Qed.
+Print Assumptions C03_buy_direct_orders_shrink.
+
+(* the fee pool is reduced only by the governance authority's GovSendFromFeePool (uregen fees are burnt without passing through the pool) *)
+Theorem C03_fee_pool_every_message : forall e s m,
+  Inv_run s -> signer m <> addr_feepool ->
+  forall d, bank_bal (deliver e s m).1 addr_feepool d < bank_bal s addr_feepool d ->
+    exists authority recipient coins, m = MGovSendFromFeePool authority recipient coins /\ authority = e_authority e.
+Proof. exact fee_pool_deliver. Qed.
+Print Assumptions C03_fee_pool_every_message.
+
+(* module accounts (blocked addresses) keep their coins under every non-marketplace message *)
+Theorem C03_module_accounts_net_zero : forall e s m s' r evs,
+  Inv_run s -> validate_basic m = true -> handle e s m = LOk (s', r, evs) ->
+  is_market_msg m = false -> signer m <> addr_ecocredit ->
+  forall a d, blocked_addr a = true -> a <> signer m -> bank_bal s' a d = bank_bal s a d.
+Proof. exact module_accounts_net_zero. Qed.
+Print Assumptions C03_module_accounts_net_zero.
+
+(* at every state of every history *)
+Theorem C03_in_every_reachable_state : forall g s e m,
+  Inv_run g -> reaches g s -> forall a, a <> signer m ->
+    let s' := (deliver e s m).1 in
+    (forall k, U (bl_tradable (get_balance s a k)) <= U (bl_tradable (get_balance s' a k))) /\
+    (forall k, U (bl_escrowed (get_balance s' a k)) < U (bl_escrowed (get_balance s a k)) ->
+               exists buyer orders, m = MBuyDirect buyer orders) /\
+    (forall k, U (bl_escrowed (get_balance s a k)) - U (bl_escrowed (get_balance s' a k)) =
+               open_units s a k - open_units s' a k) /\
+    (forall d, a <> addr_feepool -> bank_bal s a d <= bank_bal s' a d) /\
+    (forall d, bank_bal s' a d < bank_bal s a d ->
+               a = addr_feepool /\ exists authority recipient coins,
+                 m = MGovSendFromFeePool authority recipient coins /\ authority = e_authority e).
+Proof. exact ownership_reachable. Qed.
+Print Assumptions C03_in_every_reachable_state.
+
+(* block-level processing only moves an account's own credits from escrow back to tradable *)
+Theorem C03_begin_block_in_every_reachable_state : forall g s t s',
+  Inv_run g -> reaches g s -> begin_block t s = LOk s' ->
+  (forall a k, holdings s' a k = holdings s a k) /\
+  (forall a k, U (bl_tradable (get_balance s a k)) <= U (bl_tradable (get_balance s' a k))) /\
+  (forall a k, U (bl_escrowed (get_balance s a k)) - U (bl_escrowed (get_balance s' a k)) =
+               open_units s a k - open_units s' a k) /\
+  bank s' = bank s.
+Proof. exact begin_block_reachable. Qed.
+Print Assumptions C03_begin_block_in_every_reachable_state.
+
+(* reaches_unsigned a s s': any sequence of begin-blocks and of messages not signed by a *)
+Theorem C03_history : forall a s s',
+  Inv_run s -> reaches_unsigned a s s' ->
+  (forall k, U (bl_tradable (get_balance s a k)) <= U (bl_tradable (get_balance s' a k))) /\
+  (a <> addr_feepool -> forall d, bank_bal s a d <= bank_bal s' a d) /\
+  (forall k, U (bl_escrowed (get_balance s a k)) = open_units s a k /\
+             U (bl_escrowed (get_balance s' a k)) = open_units s' a k).
+Proof. exact ownership_history. Qed.
+Print Assumptions C03_history.
+
+Example C03_hypotheses_satisfiable :
+  Inv_run empty_state.
+Proof. exact ownership_hyps_satisfiable. Qed.
+Print Assumptions C03_hypotheses_satisfiable.
 
 (* base module *)
 Theorem C03_base_module : forall e s m s' r evs,
